@@ -118,6 +118,7 @@ def forced_interleavings(ctx, res):
     try:
         trees.standard(tree, hostile_content=False)
         cfg = pyg.make_config(tree.root, **{"handlers.dir.DirHandler|cachetime": "180"})
+        pyg.reset_globals()          # (the requests below keep module state between them: start from this tree's configuration)
         cachefile = cfg.get("handlers.dir.DirHandler", "cachefile")
         views = [("gopher", "+"), ("gopherp", "$"), ("http", "+"), ("gemini", "+"), ("wap", "+"), ("spartan", "+")]
         dirs = ["/", "/docs", "/pics"]
